@@ -42,13 +42,13 @@ def run_states(ctx, states, rng, jmax):
         def bad(fn, clause):
             ctx.violation('C15:%s:%s:%s' % (fn, clause, kind), '%s: %s [%s]' % (fn, clause, kind), data)
         try:
-            if np.abs(G.angle_to_so3(al, be, ga) - R).max() > TOL: bad('angle_to_so3', 'matrix differs from Rz Ry Rz')
-            if np.abs(G.angle_to_su2(al, be, ga) - U).max() > TOL: bad('angle_to_su2', 'matrix differs')
-            if np.abs(G.su2_to_so3(U) - R).max() > TOL: bad('su2_to_so3', 'image of the 2-to-1 homomorphism differs')
-            if np.abs(G.su2_to_so3(-U) - R).max() > TOL: bad('su2_to_so3', '-U does not map to the same rotation')
+            if core.gt(np.abs(G.angle_to_so3(al, be, ga) - R).max(), TOL): bad('angle_to_so3', 'matrix differs from Rz Ry Rz')
+            if core.gt(np.abs(G.angle_to_su2(al, be, ga) - U).max(), TOL): bad('angle_to_su2', 'matrix differs')
+            if core.gt(np.abs(G.su2_to_so3(U) - R).max(), TOL): bad('su2_to_so3', 'image of the 2-to-1 homomorphism differs')
+            if core.gt(np.abs(G.su2_to_so3(-U) - R).max(), TOL): bad('su2_to_so3', '-U does not map to the same rotation')
             a2, b2, g2 = G.so3_to_angle(R)
             ctx.evaluations += 1
-            if not np.all(np.isfinite([a2, b2, g2])) or np.abs(G.angle_to_so3(a2, b2, g2) - R).max() > 1e-7:
+            if not np.all(np.isfinite([a2, b2, g2])) or core.gt(np.abs(G.angle_to_so3(a2, b2, g2) - R).max(), 1e-7):
                 bad('so3_to_angle', 'extracted Euler angles do not rebuild the rotation')
             a3, b3, g3 = G.su2_to_angle(U)
             U3 = G.angle_to_su2(a3, b3, g3)
@@ -64,7 +64,7 @@ def run_states(ctx, states, rng, jmax):
                 want = num / np.outer(rad, rad)
                 for form, got in (('matrix', G.get_su2_irrep(n, U)), ('angles', G.get_su2_irrep(n, al, be, ga))):
                     # the matrix form goes through su2_to_angle (arccos near its end points loses half the digits)
-                    if got.shape != want.shape or np.abs(got - want).max() > (1e-7 if form == 'matrix' else 1e-8):
+                    if got.shape != want.shape or core.gt(np.abs(got - want).max(), (1e-7 if form == 'matrix' else 1e-8)):
                         bad('get_su2_irrep', 'j2=%d (%s form): matrix differs from the symmetric power of U' % (n, form))
                         break
         except Exception as ex:
@@ -90,7 +90,7 @@ def run_batches(ctx, recs, rng, count):
         tag = 'mixed' if len(set(kinds)) > 1 else kinds[0]
         try:
             a, b, g = G.so3_to_angle(Rb)
-            if np.abs(G.angle_to_so3(a, b, g) - Rb).max() > 1e-7:
+            if core.gt(np.abs(G.angle_to_so3(a, b, g) - Rb).max(), 1e-7):
                 ctx.violation('C15:so3_to_angle:batch:%s' % tag, 'batched conversion is not element-wise correct', data)
             a, b, g = G.su2_to_angle(Ub)
             U2 = G.angle_to_su2(a, b, g)
@@ -107,9 +107,9 @@ def run(ctx):
     rng = random.Random(ctx.seed)
     jmax = 3
     ctx.rule = ('every Euler triple on the Pythagorean half-angle grid (12 x 4 x 12 = 576 rotations: beta in {0, pi} exactly with alpha+-gamma in every quadrant, 288 generic); batches mixing both kinds; '
-                'spin-j matrices j2<=3 against Sym^n(U); angular-momentum operators j2<=10; distinct by angle triple / batch')
+                'spin-j matrices j2<=3 against Sym^n(U); angular-momentum operators j2<=10; every Clebsch-Gordan table with 2j1, 2j2 <= %d; distinct by angle triple / batch / table' % (4 if quick else 5))
     ctx.assumptions = ['TLC/SANY correct', 'tolerance 1e-9 for forward maps, 1e-7 after angle extraction (arccos near the end points)']
-    ctx.not_covered = ['Clebsch-Gordan coefficients (taken from sympy by the library; only their use is in scope)', 'spin-j for j2>3 exactly (32-bit overflow of 125^n numerators)',
+    ctx.not_covered = ['Clebsch-Gordan tables beyond 2j1, 2j2 <= 5 (32-bit overflow of the factorial products)', 'spin-j for j2>3 exactly (32-bit overflow of 125^n numerators)',
                        'D(U1 U2) = D(U1) D(U2) is exact in the spec by construction (symmetric power); on the code side it is compared numerically at products that leave the grid']
     r = tlc.run('lie/MC_Rotation.tla', 'lie/MC_Rotation_q.cfg', dump=True, timeout=3000)
     ctx.add_model('MC_Rotation', r)
@@ -135,23 +135,53 @@ def run(ctx):
             if not np.all(np.isfinite([a3, b3, g3])) or min(np.abs(U3 - U).max(), np.abs(U3 + U).max()) > 1e-7:
                 ctx.violation('C15:su2_to_angle:fine-grid:%s' % kind, 'extracted Euler angles are not finite / do not rebuild the SU(2) element [%s]' % kind, dict(data, angles=[float(a3), float(b3), float(g3)]))
             a2, b2, g2 = G.so3_to_angle(R)
-            if not np.all(np.isfinite([a2, b2, g2])) or np.abs(G.angle_to_so3(a2, b2, g2) - R).max() > 1e-7:
+            if not np.all(np.isfinite([a2, b2, g2])) or core.gt(np.abs(G.angle_to_so3(a2, b2, g2) - R).max(), 1e-7):
                 ctx.violation('C15:so3_to_angle:fine-grid:%s' % kind, 'extracted Euler angles are not finite / do not rebuild the rotation [%s]' % kind, data)
-            if np.abs(G.su2_to_so3(U) - R).max() > 1e-9:
+            if core.gt(np.abs(G.su2_to_so3(U) - R).max(), 1e-9):
                 ctx.violation('C15:su2_to_so3:fine-grid:%s' % kind, 'image differs', data)
             D1 = G.get_su2_irrep(1, U)
-            if not np.all(np.isfinite(D1)) or np.abs(D1 - U).max() > 1e-7:
+            if not np.all(np.isfinite(D1)) or core.gt(np.abs(D1 - U).max(), 1e-7):
                 ctx.violation('C15:get_su2_irrep:fine-grid:%s' % kind, 'spin-1/2 matrix of U is not U', data)
         except Exception as ex:
             ctx.violation('C15:exception:fine-grid:%s' % kind, type(ex).__name__ + ': ' + str(ex)[:160], data)
     ctx.traces += len(gst)
+    # the edges of the generic chart: cos(alpha) = +-1 or cos(gamma) = +-1 exactly, beta generic, the other angles on the fine set
+    r = tlc.run('lie/MC_EulerEdge.tla', 'lie/MC_EulerEdge.cfg', dump=True, timeout=3000)
+    ctx.add_model('MC_EulerEdge', r)
+    est = list(tlc.parse_dump(r))
+    for st in est:
+        obs, ang = st['obs'], st['ang']
+        U = gmat(obs['U'], obs['den'])
+        R = np.array(obs['R'], dtype=float) / obs['den'] ** 2
+        kind = 'gamma-edge' if ang['g'][2] == 1 else 'alpha-edge'
+        data = dict(alpha_half=ang['a'], beta_half=ang['b'], gamma_half=ang['g'], kind=kind)
+        ctx.case(('edge', tuple(ang['a']), tuple(ang['b']), tuple(ang['g'])))
+        try:
+            a2, b2, g2 = G.so3_to_angle(R)
+            if not np.all(np.isfinite([a2, b2, g2])) or core.gt(np.abs(G.angle_to_so3(a2, b2, g2) - R).max(), 1e-7):
+                ctx.violation('C15:so3_to_angle:chart-edge:%s' % kind, 'extracted Euler angles are not finite / do not rebuild the rotation [%s, beta generic]' % kind, dict(data, angles=[float(a2), float(b2), float(g2)]))
+            a3, b3, g3 = G.su2_to_angle(U)
+            U3 = G.angle_to_su2(a3, b3, g3)
+            if not np.all(np.isfinite([a3, b3, g3])) or core.gt(min(np.abs(U3 - U).max(), np.abs(U3 + U).max()), 1e-7):
+                ctx.violation('C15:su2_to_angle:chart-edge:%s' % kind, 'extracted Euler angles are not finite / do not rebuild the SU(2) element [%s, beta generic]' % kind, dict(data, angles=[float(a3), float(b3), float(g3)]))
+            if core.gt(np.abs(G.su2_to_so3(U) - R).max(), 1e-9):
+                ctx.violation('C15:su2_to_so3:chart-edge:%s' % kind, 'image differs', data)
+            U4 = G.so3_to_su2(R)
+            if core.gt(min(np.abs(U4 - U).max(), np.abs(U4 + U).max()), 1e-7):
+                ctx.violation('C15:so3_to_su2:chart-edge:%s' % kind, 'so3_to_su2(R) is not +-U', data)
+            D1 = G.get_su2_irrep(1, U)
+            if core.gt(np.abs(D1 - U).max(), 1e-7):
+                ctx.violation('C15:get_su2_irrep:chart-edge:%s' % kind, 'spin-1/2 matrix of U is not U', data)
+        except Exception as ex:
+            ctx.violation('C15:exception:chart-edge:%s' % kind, type(ex).__name__ + ': ' + str(ex)[:160], data)
+    ctx.traces += len(est)
     # representation property at exact products (numerical; both factors anchored exactly above)
     G = numqi.group
     for t in range(40 if quick else 400):
         U1, U2 = rng.choice(recs)[1], rng.choice(recs)[1]
         for n in (1, 2, 3, 4):
             try:
-                if np.abs(G.get_su2_irrep(n, U1 @ U2) - G.get_su2_irrep(n, U1) @ G.get_su2_irrep(n, U2)).max() > 1e-7:
+                if core.gt(np.abs(G.get_su2_irrep(n, U1 @ U2) - G.get_su2_irrep(n, U1) @ G.get_su2_irrep(n, U2)).max(), 1e-7):
                     ctx.violation('C15:get_su2_irrep:homomorphism', 'D(U1 U2) != D(U1) D(U2) for j2=%d' % n, dict(j2=n))
                     break
             except Exception as ex:
@@ -166,16 +196,44 @@ def run(ctx):
         ctx.case(('angmom', j2))
         try:
             jx, jy, jz = get_angular_momentum_op(j2)
-            if np.abs(np.diag(jz) * 2 - np.array(st['obs']['m2'])).max() > TOL:
+            if core.gt(np.abs(np.diag(jz) * 2 - np.array(st['obs']['m2'])).max(), TOL):
                 ctx.violation('C15:get_angular_momentum_op:jz', 'J_z is not diag(j..-j)', dict(j2=j2))
             sup = np.diag(jx, 1)
-            if np.abs(16 * sup ** 2 - np.array(st['obs']['jx16'])).max() > 1e-8 or np.abs(jx - jx.T).max() > TOL or np.abs(np.diag(jy, 1) + 1j * sup).max() > TOL or np.abs(jy - jy.conj().T).max() > TOL:
+            if core.gt(np.abs(16 * sup ** 2 - np.array(st['obs']['jx16'])).max(), 1e-8) or core.gt(np.abs(jx - jx.T).max(), TOL) or core.gt(np.abs(np.diag(jy, 1) + 1j * sup).max(), TOL) or core.gt(np.abs(jy - jy.conj().T).max(), TOL):
                 ctx.violation('C15:get_angular_momentum_op:ladder', 'J_x / J_y entries differ from sqrt((j-m)(j+m+1))/2', dict(j2=j2))
-            if np.abs(jx @ jy - jy @ jx - 1j * jz).max() > 1e-8:
+            if core.gt(np.abs(jx @ jy - jy @ jx - 1j * jz).max(), 1e-8):
                 ctx.violation('C15:get_angular_momentum_op:commutator', '[Jx,Jy] != i Jz', dict(j2=j2))
         except Exception as ex:
             ctx.violation('C15:exception:angmom', type(ex).__name__ + ': ' + str(ex)[:160], dict(j2=j2))
+    # Clebsch-Gordan tables: exact s*sqrt(r) values defined by Racah's formula and certified in TLC by normalisation,
+    # highest-weight, ladder and phase relations; replayed into get_clebsch_gordan_coeffient (index order m = j..-j)
+    r = tlc.run('lie/MC_CG.tla', 'lie/MC_CG_%s.cfg' % ('q' if quick else 't'), dump=True, timeout=3000)
+    ctx.add_model('MC_CG(2j1,2j2<=%d)' % (4 if quick else 5), r)
+    from numqi.matrix_space import get_clebsch_gordan_coeffient
+    for st in tlc.parse_dump(r):
+        a, b, tab = st['a'], st['b'], st['tab']
+        if isinstance(tab, list):        # TLC prints a function with domain {1} as a tuple
+            tab = {i + 1: v for i, v in enumerate(tab)}
+        ctx.case(('cg', a, b))
+        data = dict(j1_double=a, j2_double=b)
+        try:
+            got = get_clebsch_gordan_coeffient(a, b)
+            if [int(c) for c, _ in got] != sorted(tab):
+                ctx.violation('C15:get_clebsch_gordan_coeffient:j-values', 'list of total spins differs from |j1-j2|..j1+j2', dict(data, got=[int(c) for c, _ in got]))
+                continue
+            for c, coeff in got:
+                want = np.zeros((c + 1, a + 1, b + 1))
+                for (m1d, m2d), v in tab[c].items():
+                    if v['s']:
+                        want[(c - m1d - m2d) // 2, (a - m1d) // 2, (b - m2d) // 2] = v['s'] * np.sqrt(v['r'][0] / v['r'][1])
+                ctx.evaluations += want.size
+                if np.asarray(coeff).shape != want.shape or core.gt(np.abs(np.asarray(coeff) - want).max(), 1e-10):
+                    ctx.violation('C15:get_clebsch_gordan_coeffient:value', 'coefficients differ from the exact table (j=%d/2)' % c, dict(data, j_double=int(c)))
+            ctx.traces += 1
+        except Exception as ex:
+            ctx.violation('C15:exception:clebsch-gordan', type(ex).__name__ + ': ' + str(ex)[:160], data)
     s = states[77]
+    ctx.sample(dict(kind='clebsch-gordan', j1_double=a, j2_double=b, j_values=sorted(tab)))
     ctx.sample(dict(kind='rotation', half_angles=s['ang'], R_times_15625=s['obs']['R']))
 
 
